@@ -3,7 +3,10 @@ Drive the real reader against a simulated transport and canonicalise what it doe
 """
 
 from sim import core
+from sim.meter import StepMeter
 from sim.transports import SimBudgetExceeded, make_transport
+
+RUN_LOOP_BUDGET = 50_000_000  # loop iterations (library + simulator) one reader run may take
 
 MAX_ITEMS_SLACK = 16
 
@@ -165,12 +168,14 @@ def run_reader(wire: bytes, cfg: dict, tr: dict, keep_objs=False, use_read=False
     use_read = use_read or cfg.get("drive") == "read"
     rereads = int(tr.get("rereads", 0)) if tr.get("redrive_all") else 0
     writes = set(cfg.get("writes") or ())
-    if writes:
-        use_read = True
     max_items = len(wire) + MAX_ITEMS_SLACK
     stream_obj = getattr(transport, "stream", transport)
     core.VirtualClock.source = transport if hasattr(transport, "now") else None
+    # bounded liveness for every run of every check: an endless loop that never touches the transport is a
+    # deterministic `hang` verdict (loop iterations counted with PEP 669 JUMP events), not a watchdog kill
+    meter = StepMeter(RUN_LOOP_BUDGET)
     try:
+        meter.__enter__()
         ubr = UBXReader(stream_obj, **kw)
         kw.clear()  # the reader holds the only reference to its handler now
         if cfg.get("decoy"):
@@ -219,7 +224,7 @@ def run_reader(wire: bytes, cfg: dict, tr: dict, keep_objs=False, use_read=False
                 if keep_objs:
                     out.objs.append(parsed)
                 n += 1
-                if n in writes and hasattr(ubr.datastream, "write"):
+                if n in writes and hasattr(transport, "recv") and hasattr(ubr.datastream, "write"):
                     # the application sends a poll request between two reads (what arrives must not depend on it)
                     ubr.datastream.write(b"\xb5\x62\x0a\x04\x00\x00\x0e\x34")
                 if n > max_items:
@@ -252,8 +257,19 @@ def run_reader(wire: bytes, cfg: dict, tr: dict, keep_objs=False, use_read=False
                 if keep_objs:
                     out.objs.append(parsed)
                 n += 1
+                if n in writes and hasattr(transport, "recv") and hasattr(ubr.datastream, "write"):
+                    ubr.datastream.write(b"\xb5\x62\x0a\x04\x00\x00\x0e\x34")
                 if n > max_items:
                     raise SimBudgetExceeded(f"more than {max_items} items delivered")
+            if cfg.get("second_pass"):
+                # the application iterates the SAME reader again after it ended (a second `for` loop,
+                # e.g. following a log file): nothing has arrived in between, nothing may be yielded again
+                for raw, parsed in ubr:
+                    out.items.append((raw, canon_parsed(parsed)))
+                    out.events.append(("D", raw))
+                    n += 1
+                    if n > max_items:
+                        raise SimBudgetExceeded(f"more than {max_items} items delivered")
     except SimBudgetExceeded as err:
         out.hang = str(err)
     except Exception as err:  # pylint: disable=broad-except
@@ -261,6 +277,7 @@ def run_reader(wire: bytes, cfg: dict, tr: dict, keep_objs=False, use_read=False
         out.exc_where = exc_origin(err)
         out.events.append(("X",) + out.exc)
     finally:
+        meter.__exit__(None, None, None)
         core.VirtualClock.source = None
     return out
 
